@@ -226,13 +226,22 @@ def run_case(case):
     return out
 
 
+def run_find_case(case):
+    """utility.find_index with padding, observed through Interpolate1DLinear (see Model/C14_Check.v: check_find)"""
+    from cherab.core.math import Interpolate1DLinear
+    x = np.array(case["x"], dtype=float)
+    it = Interpolate1DLinear(x, np.arange(len(x), dtype=float), extrapolate=True, extrapolation_type="nearest",
+                             extrapolation_range=float(case["pad"]))
+    return {"id": case["id"], "find": [list(call(it, [v])) for v in case["vs"]]}
+
+
 def main():
     cases = json.load(open(sys.argv[1]))
     res = []
     for n, c in enumerate(cases):
         with open(sys.argv[2] + ".progress", "w") as fh:
             fh.write(str(n))
-        res.append(run_case(c))
+        res.append(run_find_case(c) if c.get("kind") == "find" else run_case(c))
         if len(res) % 20 == 0:
             json.dump(res, open(sys.argv[2] + ".part", "w"))
     json.dump(res, open(sys.argv[2], "w"))
